@@ -20,10 +20,10 @@ META = dict(
     property="C29",
     level="exploration",
     technique="generated stream sets, response plans (plain writes, push/pull producers, delayed and application-paced writes) and peer schedules (WINDOW_UPDATE, SETTINGS INITIAL_WINDOW_SIZE up and down, MAX_FRAME_SIZE, split delivery, transport back-pressure) against the real H2Connection; independent RFC 7540 §6.9 window accounting on hyperframe-decoded frames + h2 client as second witness; quiescence checks for liveness",
-    level_text="Random histories: 1-8 concurrent streams, bodies 0..300 KiB written in 0-6 chunks by five kinds of responders, initial windows 0..100000, 5-40 peer/application operations. Checked at every server write: cumulative DATA per stream and per connection never exceeds what the peer had granted when the bytes were written (initial window at stream creation + WINDOW_UPDATEs + SETTINGS deltas), frame length within the peer's MAX_FRAME_SIZE. Checked whenever the harness lets the system go quiet (no bytes and no application activity for 6 + 2 x streams reactor iterations, transport not paused): every open stream is either finished or has no window left (connection or stream) - i.e. nothing that could be sent is left unsent. Checked at the end after every stream and the connection received 4 MiB of window: every response ended, body byte-identical to the plan, also as seen by the h2 client. 'Resume' is a quiescence property under a fair harness-owned continuation, not liveness in general. Sampled, no proof.",
+    level_text="Random histories: 1-8 concurrent streams, bodies 0..300 KiB written in 0-6 chunks by five kinds of responders, initial windows 0..100000, 5-40 peer/application operations. Checked at every server write: cumulative DATA per stream and per connection never exceeds what the peer had granted when the bytes were written (initial window at stream creation + WINDOW_UPDATEs + SETTINGS deltas), frame length within the peer's MAX_FRAME_SIZE. Checked whenever the harness lets the system go quiet (no bytes and no application activity for 6 + 2 x streams reactor iterations, transport not paused): every open stream is either finished or has no window left (connection or stream) - i.e. nothing that could be sent is left unsent; and a stream whose application has finished and whose body is entirely on the wire has its END_STREAM even while its window is closed (ending needs no credit). Checked at the end after every stream and the connection received 4 MiB of window: every response ended, body byte-identical to the plan, also as seen by the h2 client. 'Resume' is a quiescence property under a fair harness-owned continuation, not liveness in general. Sampled, no proof.",
     level_note="Trusted base: h2 4.4.1 / hyperframe / hpack as installed (the server itself is built on h2), the ~90-line round-robin stand-in for the missing `priority` package in /verif/vendor/priority (dependencies and weights are not honoured; the property is about flow control, not weighting), the window accounting in this file. The busy polling of _sendPrioritisedData while a stream with queued data has no window (it re-arms callLater(0) every iteration) is not asserted. No request bodies, RST_STREAM, PRIORITY or GOAWAY are generated.",
     design_ref="§5 C29",
-    rule="case = {w0, streams:[{mode, chunks}], ops:[...]} interpreted by run_case; a complete one-stream scope (windows 0-2, 1-2 byte bodies, all sequences of <=2 operations, 2565 cases) runs first, then random histories. non-trivial = at some quiescent point at least 2 streams were simultaneously blocked on flow control with body still to send; distinct by canonical JSON of the case.",
+    rule="case = {w0, streams:[{mode, chunks}], ops:[...]} interpreted by run_case; a complete one-stream scope (windows 0-2, 0-2 byte bodies, all sequences of <=2 operations, 3420 cases) runs first, then random histories. non-trivial = at some quiescent point at least 2 streams were simultaneously blocked on flow control with body still to send; distinct by canonical JSON of the case.",
 )
 
 PREFACE = b"PRI * HTTP/2.0\r\n\r\nSM\r\n\r\n"
@@ -396,6 +396,18 @@ class World:
             if self.window(sid) <= 0:
                 if r.remaining() > 0 or self.sent[sid] < r.produced:
                     blocked += 1
+                elif r.finished:
+                    # Ending a stream costs no flow-control credit (RFC 7540 6.9:
+                    # only DATA payload is counted; an empty END_STREAM frame may be
+                    # sent with no window).  Every body byte is on the wire and the
+                    # application has finished: the response must be complete now,
+                    # the peer has no reason to send another WINDOW_UPDATE.
+                    cause = self.cause.get(sid) or "nothing"
+                    self.ctx.violation(
+                        "end-stream-withheld-while-window-closed", self.case,
+                        f"{where}: stream {sid} (#{i}, {r.mode}): all {r.produced} body bytes sent, application finished, "
+                        f"window={self.window(sid)} (stream {self.granted[sid] - self.sent[sid]}, connection "
+                        f"{self.conn_granted - self.conn_sent}), but no END_STREAM; window last enlarged by {cause}")
                 continue
             if r.mode == "manual" and not r.finished and self.sent[sid] == r.produced:
                 continue        # waiting for the application, nothing to send
@@ -452,6 +464,15 @@ class Responder:
     def finish(self):
         self.finished = True
         self.w.activity += 1
+        sid = self.w.sid_of.get(self.i)
+        if sid in self.w.granted and self.w.window(sid) <= 0:
+            if self.w.sent[sid] == self.produced:
+                self.w.ctx.count("finished-with-window-closed:nothing-queued"
+                                 + (":empty-body" if self.total == 0 else ""))
+                if self.w.conn_granted - self.w.conn_sent <= 0:
+                    self.w.ctx.count("finished-with-window-closed:nothing-queued:connection-window-exhausted-by-others")
+            else:
+                self.w.ctx.count("finished-with-window-closed:data-queued")
         self.request.finish()
 
     def begin(self):
@@ -743,12 +764,12 @@ SMALL_OPS = [["wu", 0, 1], ["wu", 0, 2], ["wu", -1, 1], ["init", 0], ["init", 1]
 
 
 def small_cases():
-    """Complete small scope: one stream, windows 0..2, bodies of 1-2 bytes, every
+    """Complete small scope: one stream, windows 0..2, bodies of 0-2 bytes, every
     sequence of up to two peer/application operations, quiescence check after each."""
     import itertools
     for mode in MODES:
         for w0 in (0, 1, 2):
-            for chunks in ([1], [2], [1, 1]):
+            for chunks in ([], [1], [2], [1, 1]):
                 for n in (0, 1, 2):
                     for seq in itertools.product(SMALL_OPS, repeat=n):
                         ops = [["open", 0], ["quiesce"]]
@@ -766,7 +787,7 @@ def _shard(sub, i):
 def run(ctx):
     if not enumerate_run(ctx, small_cases(), run_case):
         return
-    ctx.extra["exhaustive_small_scope"] = dict(streams=1, initial_window=[0, 1, 2], chunks=[[1], [2], [1, 1]],
+    ctx.extra["exhaustive_small_scope"] = dict(streams=1, initial_window=[0, 1, 2], chunks=[[], [1], [2], [1, 1]],
                                                modes=MODES, ops=SMALL_OPS, max_ops=2)
     ctx.exhaustive = False
     if ctx.thorough:
